@@ -186,8 +186,22 @@ func runC18Case(c *fw.Ctx, id string, cs c18Case) {
 			time.Sleep(2 * time.Millisecond)
 		}
 	}
+	var patientCancels []context.CancelFunc
+	defer func() {
+		for _, f := range patientCancels {
+			f()
+		}
+	}()
 	mkCall := func(ctx context.Context, skip bool) hrpc.Call {
 		opn++
+		if skip && ctx == context.Background() && cs.Seed%2 == 0 {
+			// a patient caller: its own deadline lies far beyond the read timeout,
+			// which must not stretch the time a silent server goes unnoticed
+			var cancel context.CancelFunc
+			ctx, cancel = context.WithTimeout(ctx, time.Minute)
+			patientCancels = append(patientCancels, cancel)
+			c.Count("calls_with_a_deadline_beyond_the_read_timeout", 1)
+		}
 		opid := fmt.Sprintf("%s%s-%d", sim.OpIDPrefix, id, opn)
 		stepOps = append(stepOps, opid)
 		row := []byte{byte('a' + opn%26)}
